@@ -981,6 +981,7 @@ var phResNames = map[tmconsensus.HandleProposedHeaderResult]string{
 }
 
 type runner struct {
+	nStopped int
 	t     *testing.T
 	w     *vc.World
 	out   *vc.Out
@@ -1274,6 +1275,96 @@ func (rn *runner) runBehaviour(b behaviour) {
 			}
 			gotRes = "none"
 
+		case "CStart":
+			// a caller starts Handle*Proofs and is parked at the gate between its two phases
+			var a struct {
+				C int      `json:"c"`
+				M voteArgs `json:"m"`
+			}
+			must(json.Unmarshal(st.Args, &a))
+			vsForSig := a.M.Pkh
+			if _, ok := w.Def.Valsets[vsForSig]; !ok {
+				vsForSig = w.Def.Genesis
+			}
+			proofs := w.SparseProofs(a.M.Kind, a.M.H, a.M.R, vsForSig, a.M.Proofs)
+			cctx, ccancel := context.WithCancel(r.ctx)
+			cc := &concCall{done: make(chan string, 1), atGate: make(chan struct{}), release: make(chan struct{}), cancel: ccancel}
+			if r.calls == nil {
+				r.calls = map[int]*concCall{}
+			}
+			r.calls[a.C] = cc
+			r.gateMu.Lock()
+			r.gateOwner = cc
+			r.gateMu.Unlock()
+			go func() {
+				var res tmconsensus.HandleVoteProofsResult
+				if a.M.Kind == "prevote" {
+					res = r.m.HandlePrevoteProofs(cctx, tmconsensus.PrevoteSparseProof{Height: a.M.H, Round: a.M.R, PubKeyHash: w.PKH(a.M.Pkh), Proofs: proofs})
+				} else {
+					res = r.m.HandlePrecommitProofs(cctx, tmconsensus.PrecommitSparseProof{Height: a.M.H, Round: a.M.R, PubKeyHash: w.PKH(a.M.Pkh), Proofs: proofs})
+				}
+				cc.done <- voteResNames[res]
+			}()
+			select {
+			case <-cc.atGate:
+				gotRes = "parked"
+			case res := <-cc.done:
+				gotRes = res
+				delete(r.calls, a.C)
+			case <-time.After(10 * time.Second):
+				rn.out.Emit(vc.M{"kind": "inconclusive", "beh": b.ID, "step": i, "why": "call neither reached the gate nor returned"})
+				return
+			}
+
+		case "CFinish", "CAbandon":
+			var a struct {
+				C int `json:"c"`
+			}
+			must(json.Unmarshal(st.Args, &a))
+			cc := r.calls[a.C]
+			if cc == nil {
+				rn.out.Emit(vc.M{"kind": "inconclusive", "beh": b.ID, "step": i, "why": "no parked call for this caller"})
+				return
+			}
+			var reached <-chan struct{}
+			var release chan<- struct{}
+			if st.Op == "CAbandon" {
+				reached, release = stores.armHold()
+			}
+			r.gateMu.Lock()
+			r.gateOwner = cc
+			r.gateMu.Unlock()
+			cc.release <- struct{}{}
+			select {
+			case <-cc.atGate:
+				gotRes = "retry"
+			case res := <-cc.done:
+				gotRes = res
+				delete(r.calls, a.C)
+			case <-reached:
+				// the kernel is inside the add request: the caller gives up now
+				cc.cancel()
+				select {
+				case res := <-cc.done:
+					gotRes = res
+				case <-time.After(10 * time.Second):
+					gotRes = "caller-stuck"
+				}
+				delete(r.calls, a.C)
+				close(release)
+			case <-time.After(10 * time.Second):
+				rn.out.Emit(vc.M{"kind": "inconclusive", "beh": b.ID, "step": i, "why": "parked call neither returned nor retried"})
+				return
+			}
+			r.gateMu.Lock()
+			r.gateOwner = nil
+			r.gateMu.Unlock()
+			if st.Op == "CAbandon" {
+				stores.disarmHold()
+				// the kernel answers a view request within microseconds once the held write is released
+				r.syncD = 3 * time.Second
+			}
+
 		case "RecvSM":
 			select {
 			case v := <-r.smViewOut:
@@ -1376,6 +1467,7 @@ func (rn *runner) runBehaviour(b behaviour) {
 			var ok bool
 			k, ok = r.sync()
 			if !ok {
+				rn.nStopped++
 				rn.out.Emit(vc.M{"kind": "stopped-serving", "beh": b.ID, "step": i, "op": st.Op, "args": st.Args})
 				return
 			}
@@ -1404,7 +1496,7 @@ func (rn *runner) runBehaviour(b behaviour) {
 		expRes := resString(st.Res)
 		if st.CrashAt == 0 && !diverged {
 			switch st.Op {
-			case "Vote", "PH", "Replay":
+			case "Vote", "PH", "Replay", "CStart", "CFinish", "CAbandon":
 				if expRes != gotRes {
 					rn.nMismatch++
 					rn.out.Emit(vc.M{"kind": "mismatch", "beh": b.ID, "step": i, "op": st.Op, "args": st.Args,
@@ -1687,6 +1779,11 @@ func TestVerifMirrorReplay(t *testing.T) {
 	}
 	rn := &runner{t: t, w: w, out: out, trace: trace, opSeen: map[string]int{}, stateKeys: map[string]struct{}{}}
 	for i := from; i < to; i++ {
+		if rn.nStopped >= 2 {
+			// the mirror stopped serving twice: that is established, and every further case costs the full time-outs
+			out.Emit(vc.M{"kind": "cut-short", "at": i, "why": "the mirror stopped serving in two behaviours"})
+			break
+		}
 		rn.nBeh++
 		rn.runBehaviour(behs[i])
 		out.Emit(vc.M{"kind": "done", "beh": behs[i].ID, "index": i})
